@@ -259,6 +259,9 @@ func handler(props *vault.HandlerProperties) http.Handler {
 	return printablePathCheckHandler
 }
 
+// copyResponseWriter holds back the status code and the body written by a
+// handler until flush is called, so that the response can be audited before
+// any of it reaches the client.
 type copyResponseWriter struct {
 	wrapped    http.ResponseWriter
 	statusCode int
@@ -280,13 +283,19 @@ func (w *copyResponseWriter) Header() http.Header {
 }
 
 func (w *copyResponseWriter) Write(buf []byte) (int, error) {
-	w.body.Write(buf)
-	return w.wrapped.Write(buf)
+	return w.body.Write(buf)
 }
 
 func (w *copyResponseWriter) WriteHeader(code int) {
 	w.statusCode = code
-	w.wrapped.WriteHeader(code)
+}
+
+// flush sends the status code and the body to the wrapped writer.
+func (w *copyResponseWriter) flush() {
+	w.wrapped.WriteHeader(w.statusCode)
+	if w.body.Len() > 0 {
+		w.wrapped.Write(w.body.Bytes())
+	}
 }
 
 func handleAuditNonLogical(core *vault.Core, h http.Handler) http.Handler {
@@ -302,7 +311,7 @@ func handleAuditNonLogical(core *vault.Core, h http.Handler) http.Handler {
 		ctx := namespace.RootContext(r.Context())
 		err = core.AuditLogger().AuditRequest(ctx, input)
 		if err != nil {
-			respondError(w, status, err)
+			respondError(w, http.StatusInternalServerError, err)
 			return
 		}
 		cw := newCopyResponseWriter(w)
@@ -314,8 +323,12 @@ func handleAuditNonLogical(core *vault.Core, h http.Handler) http.Handler {
 		input.Response = logical.HTTPResponseToLogicalResponse(httpResp)
 		err = core.AuditLogger().AuditResponse(ctx, input)
 		if err != nil {
-			respondError(w, status, err)
+			// Nothing has been sent yet: the client only gets the error,
+			// not the response that could not be audited.
+			respondError(w, http.StatusInternalServerError, err)
+			return
 		}
+		cw.flush()
 	})
 }
 
